@@ -3084,7 +3084,8 @@ coap_handle_request_put_block(coap_context_t *context,
        * complete payload to application and acknowledge this current
        * block.
        */
-      if (!check_all_blocks_in(&lg_srcv->rec_blocks,
+      if (!lg_srcv->no_more_seen ||
+          !check_all_blocks_in(&lg_srcv->rec_blocks,
                                (uint32_t)(lg_srcv->total_len + chunk -1)/chunk)) {
         /* Ask for the next block */
         coap_insert_option(response, block_option,
